@@ -14,6 +14,13 @@ structure StoreLaws (S : StoreOps σ) : Prop where
   get_insert : ∀ st k p k', S.get (S.insert st k p) k' = if k = k' then some p else S.get st k'
   get_remove : ∀ st k k', S.get (S.remove st k) k' = if k = k' then none else S.get st k'
 
+/-- a lawful node table exists: the table as a function (used for non-vacuity examples and counterexamples) -/
+def funStore : StoreOps (Bytes → Option Prim) :=
+  ⟨fun st k => st k, fun st k p k' => if k = k' then some p else st k',
+   fun st k k' => if k = k' then none else st k'⟩
+
+theorem funStore_laws : StoreLaws funStore := ⟨fun _ _ _ _ => rfl, fun _ _ _ => rfl⟩
+
 /-- the two prefix bytes are distinct, so `Prefix::try_from(u8::from(p)) = Ok(p)` -/
 theorem prefix_roundtrip : ∀ p : Prefix, Prefix.ofByte p.byte = some p := by
   intro p; cases p <;> decide
